@@ -3,7 +3,11 @@
      bit 0 (1): model trace <> implementation trace
      bit 1 (2): the property's spec predicate is false on the implementation's trace
      bit 2 (4): the property's spec predicate is false on the model's trace (cannot happen
-                while the theorems compile; kept as a cross-check of the spec evaluator) *)
+                while the theorems compile; kept as a cross-check of the spec evaluator)
+     bit 3 (8): the translated source (coq/translated, regenerated from /repo) run on this
+                input departs from the hand-written model (the source tie is broken here)
+     bit 4 (16): the property's spec predicate is false on the translated source's trace
+                (a concrete failing input found on the model side) *)
 From Coq Require Import List ZArith Bool.
 Import ListNotations.
 Open Scope Z_scope.
@@ -19,6 +23,9 @@ Definition zlist_eqb := list_eqb Z.eqb.
 
 Definition code (model_eq spec_impl spec_model : bool) : Z :=
   (if model_eq then 0 else 1) + (if spec_impl then 0 else 2) + (if spec_model then 0 else 4).
+
+Definition code_src (src_eq spec_src : bool) : Z :=
+  (if src_eq then 0 else 8) + (if spec_src then 0 else 16).
 
 Fixpoint first_diff {A} (eqb : A -> A -> bool) (a b : list A) (i : Z) : Z :=
   match a, b with
